@@ -125,7 +125,11 @@ pub fn render(s: &TypeSpec) -> Option<Rendered> {
 }
 
 pub fn run(ctx: &Ctx) -> i32 {
-    let b = Behaviour {
+    crate::props::behave::run(ctx, &behaviour())
+}
+
+pub fn behaviour() -> Behaviour {
+    Behaviour {
         prop: "C09",
         rule: "structs and enums (no unit variants) with 1..5 fields per variant, independent Deref and DerefMut marker positions, named and tuple shapes, \
                value and reference field types, several fields of the target type holding distinct values; oracle: &*x has the address of the designated \
@@ -139,6 +143,5 @@ pub fn run(ctx: &Ctx) -> i32 {
         thorough: 8000,
         batch: 25,
         assumptions: &[],
-    };
-    crate::props::behave::run(ctx, &b)
+    }
 }
